@@ -364,3 +364,21 @@ fn f10a_append_seek_failure_surfaces() {
         assert_eq!(s, "first entry", "fail_seek={k}");
     }
 }
+
+// F11 (C03, C16): extra-field records that follow the WinZip AES record must still be read.
+// The AES branch of parse_extra_field consumed its 7 payload bytes and then skipped 7 more.
+#[test]
+fn f11_record_after_aes_extra_is_read() {
+    let mut x = aes_extra(0);
+    // ZIP64 record forced on a small entry: uncompressed, compressed
+    x.extend_from_slice(&le16(1));
+    x.extend_from_slice(&le16(16));
+    x.extend_from_slice(&7u64.to_le_bytes());
+    x.extend_from_slice(&35u64.to_le_bytes());
+    let data = [0u8; 35];
+    let z = mk_zip(&[E { name: b"a", flags: 1, method: 99, crc: 0, csize: 0xFFFF_FFFF, usize_: 0xFFFF_FFFF, extra: &x, data: &data }]);
+    let mut ar = zip::ZipArchive::new(Cursor::new(z)).unwrap();
+    let f = ar.by_index_raw(0).unwrap();
+    assert_eq!(f.compressed_size(), 35, "compressed size from the ZIP64 record after the AES record");
+    assert_eq!(f.size(), 7, "uncompressed size from the ZIP64 record after the AES record");
+}
